@@ -70,7 +70,8 @@ pub fn run(args: &Args) {
                 res.case(hash_value(v), !cuts.is_empty() && seq > 1);
                 match map_cut(seq, &vcp) {
                     Err(p) => res.mismatch("violation", "C19/mapping/panic", p, v.clone()),
-                    Ok(c) => if Some(c) != v["cut"].as_i64() { res.mismatch("violation", "C19/mapping/cut", format!("expected cut {} got {}", v["cut"], c), v.clone()) },
+                    // the statement quantifies over sequences "from 1 upward": what sequence 0 maps to is left open
+                    Ok(c) => if Some(c) != v["cut"].as_i64() { res.mismatch(if seq == 0 { "drift" } else { "violation" }, if seq == 0 { "C19/mapping/sequence_zero" } else { "C19/mapping/cut" }, format!("expected cut {} got {}", v["cut"], c), v.clone()) },
                 }
                 for stats in [None, Some(&empty)] {
                     match estimate(seq, &vcp, stats) {
